@@ -75,7 +75,7 @@ def gen_cases(rng, tier):
             "seed": rng.randrange(10 ** 9),
             "n_workers": rng.randint(1, 6),
             "max_events": rng.choice([30, 60, 120]) if tier == "quick" else rng.choice([60, 200, 500]),
-            "style": rng.choice(["general"] * 6 + ["ties", "const"]),
+            "style": rng.choice(["general"] * 5 + ["ties", "const", "near4", "near6", "near8", "near10", "tiny", "huge", "neg"]),
             "p_late": rng.choice([0, 0, 0.2]),
             "p_fail": rng.choice([0, 0, 0.05]),
         }
@@ -129,7 +129,7 @@ def quantile_rule_monitor(spec, events, sched):
             q = levels_q(r, nxt)
             cutoff = float(np.quantile(np.array(vals), q if mode == "min" else 1 - q))
             margin = abs(v - cutoff)
-            if margin > 1e-9 * max(1.0, abs(v), abs(cutoff)):
+            if margin > 1e-12 * max(abs(x) for x in vals):
                 want = (v <= cutoff) if mode == "min" else (v >= cutoff)
                 if (d == "CONTINUE") != want:
                     out.append({"signature": "c03:quantile-rule", "what":
